@@ -73,7 +73,8 @@ def handle (j : Json) : Except String Json := do
     let env : Env := { opts := opts (fldD j "opts"), store := ← store (fldD j "store"),
                        bs := ← bsProvider (fldD j "bs"), ctx := ← Wire.ctx (← fld j "ctx"), rx }
     let f ← flag (← fld j "flag")
-    let pats := flagPatterns f ++ env.store.flags.flatMap flagPatterns ++ env.store.segments.flatMap segPatterns
+    let pats := flagPatterns f ++ (env.store.flags.map (·.2)).flatMap flagPatterns ++
+      (env.store.segments.map (·.2)).flatMap segPatterns
     match oracleMisses rxT pats ("" :: ctxStrings env.ctx) with
     | m :: _ => throw s!"regex oracle has no entry for pattern {m.1} subject {m.2}"
     | [] => pure ()
